@@ -511,7 +511,7 @@ def gen_rare_case(rng, dic, vocab, cid, tier, lang, ab, stats):
     nonfil = [i for i in range(len(names)) if not fil[i] and i != sil]
     base = gen_case(rng, dic, vocab, cid, tier, beams=("wide" if rng.chance(0.85) else None), frames=rng.range(25, 100), lang=lang)
     two = [w for w in vocab if len(dic[w][0][1]) >= 2 and all(p in idx for p in dic[w][0][1])]
-    side = rng.weighted([("new-word-on-the-right", 4), ("new-word-on-the-left", 4), ("both-new", 2)])
+    side = rng.weighted([("new-word-on-the-right", 4), ("new-word-on-the-left", 4), ("both-new", 3)])
     add, hit = [], False
 
     def fresh(ph):
@@ -519,22 +519,32 @@ def gen_rare_case(rng, dic, vocab, cid, tier, lang, ab, stats):
         add.append([nm, [names[p] for p in ph]])
         return nm
     if side == "new-word-on-the-right":
-        w1 = rng.choice(two)
-        a, x = idx[dic[w1][0][1][-1]], idx[dic[w1][0][1][-2]]
-        cand = sorted(c for c in absent.get((a, x), ()) if c in nonfil)
+        for _ in range(12):      # prefer a left word whose final diphone has an absent right context
+            w1 = rng.choice(two)
+            a, x = idx[dic[w1][0][1][-1]], idx[dic[w1][0][1][-2]]
+            cand = sorted(c for c in absent.get((a, x), ()) if c in nonfil)
+            if cand:
+                break
         hit = bool(cand) and rng.chance(0.85)
         c = rng.choice(cand) if hit else rng.choice(nonfil)
         w2 = fresh([c] + [rng.choice(nonfil) for _ in range(rng.range(1, 3))])
     elif side == "new-word-on-the-left":
-        w2 = rng.choice(two)
-        c, y = idx[dic[w2][0][1][0]], idx[dic[w2][0][1][1]]
-        cand = sorted(a for a in nonfil if y in absent.get((c, a), ()))
+        for _ in range(12):
+            w2 = rng.choice(two)
+            c, y = idx[dic[w2][0][1][0]], idx[dic[w2][0][1][1]]
+            cand = sorted(a for a in nonfil if y in absent.get((c, a), ()))
+            if cand:
+                break
         hit = bool(cand) and rng.chance(0.85)
         a = rng.choice(cand) if hit else rng.choice(nonfil)
         w1 = fresh([rng.choice(nonfil) for _ in range(rng.range(1, 3))] + [a])
     else:
         p1 = [rng.choice(nonfil) for _ in range(rng.range(1, 4))]
         p2 = [rng.choice(nonfil) for _ in range(rng.range(1, 4))]
+        pool = sorted((b, l, r) for (b, l), rs in absent.items() for r in rs if b in nonfil and l in nonfil and r in nonfil)
+        if pool and rng.chance(0.8):      # boundary drawn from the enumeration of absent triphones: word-final b(l, r)
+            b, l, r = rng.choice(pool)
+            p1, p2 = p1[:-1][:1] + [l, b], [r] + p2[1:]
         w1, w2 = fresh(p1), fresh(p2)
         hit = len(p1) >= 2 and p2[0] in absent.get((p1[-1], p1[-2]), ())
     ws = ([rng.choice(vocab)] if rng.chance(0.3) else []) + [w1, w2] + ([rng.choice(vocab)] if rng.chance(0.3) else [])
